@@ -163,7 +163,7 @@ func (x *Exec) atReturn(fr *Frame, st *State, rv []Val) {
 	for _, en := range c.Ensures {
 		props := en.Props
 		if len(props) == 0 {
-			props = c.Props
+			props = x.safetyProps()
 		}
 		if strings.HasPrefix(en.Label, "assumed-") {
 			// used by callers, not proved on this body: listed among the assumptions of every evidence file
@@ -406,7 +406,7 @@ func (x *Exec) propagationBeforeCall(st *State, short string, site int, pos stri
 	if len(x.c.Propagates) == 0 || st.pending.S == "" || st.pending.S == "inil" {
 		return
 	}
-	x.oblige(st, "propagate", fmt.Sprintf("propagate-stops:%s@%d", short, site), x.c.Props, mkEq(st.pending, tNilI), "nothing is called while an error returned by a callee is pending (errors are returned at once)", pos)
+	x.oblige(st, "propagate", fmt.Sprintf("propagate-stops:%s@%d", short, site), x.safetyProps(), mkEq(st.pending, tNilI), "nothing is called while an error returned by a callee is pending (errors are returned at once)", pos)
 }
 
 func (x *Exec) propagationAfterCall(st *State, short string, res []Val) {
@@ -478,4 +478,18 @@ func globalRelevant(p *Program, g, ctext string) bool {
 		}
 	}
 	return !uses || mentionsAny
+}
+
+// safetyProps: safety obligations (nil, bounds, type assertions, frames, call preconditions, object
+// invariants, propagation) belong to the function's primary property (the first one listed) and, when the
+// function lists it, to C02 (accepted programs never crash the host).
+func (x *Exec) safetyProps() []string {
+	if len(x.c.Props) == 0 {
+		return nil
+	}
+	out := []string{x.c.Props[0]}
+	if x.c.Props[0] != "C02" && hasProp(x.c.Props, "C02") {
+		out = append(out, "C02")
+	}
+	return out
 }
